@@ -55,6 +55,7 @@ class PyMachine:
         from pce500.scheduler import TimerScheduler
         from sc62015.pysc62015.emulator import RegisterName
         self.RN = RegisterName
+        self.obs_mem = [tuple(x) for x in cfg.get("obs_mem", OBS_MEM)]
         emu = PCE500Emulator(save_lcd_on_exit=False, **({"timer_scale": cfg["timer_scale"]} if cfg.get("timer_scale") else {}))
         rom = bytearray(_ROM_TEMPLATE)
         for addr, data in cfg["rom"].items():
@@ -135,7 +136,7 @@ class PyMachine:
             "key_latched": bool(e._key_irq_latched),
             "next_mti": int(e._scheduler.next_mti), "next_sti": int(e._scheduler.next_sti),
             "timer_enabled": bool(e._scheduler.enabled),
-            "mem": [(a, bytes(e.memory.read_byte(a + i) for i in range(n))) for a, n in OBS_MEM],
+            "mem": [(a, bytes(e.memory.read_byte(a + i) for i in range(n))) for a, n in self.obs_mem],
             "fifo": list(e.keyboard.fifo_snapshot()),
             "kil": int(e.keyboard._matrix._compute_kil()),
         }
@@ -206,7 +207,7 @@ def rs_req(cfg, hist, obs_each: bool = True, lcd: bool = False) -> Dict[str, Any
             ops.append({"async_run": [ev[1], ev[2]]})
     if not obs_each:
         ops.append({"obs": 1})
-    return {"cmd": "machine", "cfg": rs_cfg(cfg), "obs": {"mem": [list(x) for x in OBS_MEM], "lcd": lcd}, "obs_each": obs_each,
+    return {"cmd": "machine", "cfg": rs_cfg(cfg), "obs": {"mem": [list(x) for x in cfg.get("obs_mem", OBS_MEM)], "lcd": lcd}, "obs_each": obs_each,
             "script": ops}
 
 
